@@ -2,6 +2,7 @@
   Bnum.Lemmas.Endian — lemmas about Model/Endian.lean (C15).
 -/
 import Bnum.Lemmas.Basic
+import Bnum.Lemmas.AddSub
 import Bnum.Model.Endian
 import Bnum.Spec.Endian
 set_option autoImplicit false
@@ -124,5 +125,720 @@ theorem leLastDigit_eq {bw sh : Nat} (hbw : bw = 2 ^ sh) (slice : List Nat) (exa
     rw [show t + exact * bw = exact * bw + t by omega, idx_eq h1]
     simp only
     rw [setIdx_eq _ (by omega)]
+/-- acceptance test of `BUint`'s digit store -/
+def accU (n i d : Nat) : Bool := decide (i < n) || d == 0
+/-- acceptance test of `BInt`'s `set_digit!` -/
+def accI (w n : Nat) (neg : Bool) (sb i d : Nat) : Bool :=
+  if i = n - 1 then Bnum.Prim.isNeg w d == neg else (decide (i < n) || d == sb)
+
+/-- pure form of the digit-store loop -/
+def place (acc : Nat → Nat → Bool) (n : Nat) : Nat → List Nat → List Nat → Option (List Nat)
+  | _, [], out => some out
+  | i, d :: ds, out =>
+    if acc i d then place acc n (i + 1) ds (if i < n then out.set i d else out) else none
+
+theorem setDigitU_eq {n i d : Nat} {out : List Nat} (h : out.length = n) :
+    setDigitU n i d out
+      = .ok (if accU n i d then some (if i < n then out.set i d else out) else none) := by
+  unfold setDigitU accU
+  by_cases hi : i < n
+  · simp [hi, setIdx_eq _ (h ▸ hi)]
+  · by_cases hd : d = 0 <;> simp [hi, hd]
+
+theorem setDigitI_eq {w n i d sb : Nat} {neg : Bool} {out : List Nat} (hn : 1 ≤ n)
+    (h : out.length = n) :
+    setDigitI w n neg sb i d out
+      = .ok (if accI w n neg sb i d then some (if i < n then out.set i d else out) else none) := by
+  unfold setDigitI accI
+  by_cases h1 : i = n - 1
+  · subst h1
+    have hi : n - 1 < n := by omega
+    have hi' : n - 1 < out.length := by omega
+    by_cases h2 : Bnum.Prim.isNeg w d = neg <;> simp [h2, hi, setIdx_eq _ hi']
+  · by_cases hi : i < n
+    · simp [h1, hi, setIdx_eq _ (h ▸ hi)]
+    · by_cases hd : d = sb <;> simp [h1, hi, hd]
+
+theorem sliceLoop_eq (getDigit : Nat → Outcome Nat)
+    (setDigit : Nat → Nat → List Nat → Outcome (Option (List Nat)))
+    (acc : Nat → Nat → Bool) (n : Nat)
+    (hset : ∀ i d (out : List Nat), out.length = n →
+      setDigit i d out = .ok (if acc i d then some (if i < n then out.set i d else out) else none)) :
+    ∀ (ds : List Nat) (i : Nat) (out : List Nat), out.length = n →
+      (∀ t (h : t < ds.length), getDigit (i + t) = .ok ds[t]) →
+      sliceLoop getDigit setDigit ds.length i out = .ok (place acc n i ds out) := by
+  intro ds
+  induction ds with
+  | nil => intro i out _ _; simp [sliceLoop, place]
+  | cons d ds ih =>
+    intro i out hl hg
+    have h0 := hg 0 (by simp)
+    simp only [Nat.add_zero, List.getElem_cons_zero] at h0
+    simp only [List.length_cons, sliceLoop, h0, hset i d out hl, place]
+    by_cases ha : acc i d
+    · simp only [ha, if_true]
+      apply ih
+      · split <;> simp [hl]
+      · intro t h
+        have := hg (t + 1) (by simpa using h)
+        simpa [Nat.add_assoc, Nat.add_comm 1 t] using this
+    · simp [ha]
+
+theorem place_append (acc : Nat → Nat → Bool) (n : Nat) :
+    ∀ (ds es : List Nat) (i : Nat) (out : List Nat),
+      place acc n i (ds ++ es) out
+        = (place acc n i ds out).bind (fun o => place acc n (i + ds.length) es o) := by
+  intro ds
+  induction ds with
+  | nil => intro es i out; simp [place]
+  | cons d ds ih =>
+    intro es i out
+    simp only [List.cons_append, place, List.length_cons]
+    by_cases ha : acc i d
+    · simp only [ha, if_true]; rw [ih]; simp [Nat.add_assoc, Nat.add_comm 1]
+    · simp [ha]
+
+/-- closed form of `place` -/
+theorem place_eq (acc : Nat → Nat → Bool) (n : Nat) :
+    ∀ (ds : List Nat) (i : Nat) (out : List Nat), out.length = n →
+      place acc n i ds out
+        = if ∀ t (h : t < ds.length), acc (i + t) ds[t] = true
+          then some (out.take i ++ ds.take (n - i) ++ out.drop (i + ds.length)) else none := by
+  intro ds
+  induction ds with
+  | nil => intro i out _; simp [place]
+  | cons d ds ih =>
+    intro i out hl
+    simp only [place]
+    by_cases ha : acc i d
+    · simp only [ha, if_true]
+      rw [ih _ _ (by split <;> simp [hl])]
+      have hiff : (∀ t (h : t < ds.length), acc (i + 1 + t) ds[t] = true)
+          ↔ (∀ t (h : t < (d :: ds).length), acc (i + t) (d :: ds)[t] = true) := by
+        constructor
+        · intro h t ht
+          cases t with
+          | zero => simpa using ha
+          | succ t => have := h t (by simpa using ht); simpa [Nat.add_assoc, Nat.add_comm 1 t] using this
+        · intro h t ht
+          have := h (t + 1) (by simpa using ht)
+          simpa [Nat.add_assoc, Nat.add_comm 1 t] using this
+      by_cases hall : ∀ t (h : t < ds.length), acc (i + 1 + t) ds[t] = true
+      · rw [if_pos hall, if_pos (hiff.mp hall)]
+        congr 1
+        by_cases hi : i < n
+        · simp only [hi, if_true]
+          rw [take_set_succ (by omega), drop_set_succ,
+            show n - i = (n - (i + 1)) + 1 by omega, List.take_succ_cons]
+          simp [Nat.add_assoc, Nat.add_comm 1]
+        · simp only [hi, if_false]
+          have h1 : n - i = 0 := by omega
+          have h2 : n - (i + 1) = 0 := by omega
+          rw [h1, h2, List.take_of_length_le (by omega), List.take_of_length_le (i := i) (by omega),
+            List.drop_of_length_le (by omega), List.drop_of_length_le (by simp; omega)]
+          simp
+      · rw [if_neg hall, if_neg (fun h => hall (hiff.mpr h))]
+    · rw [if_neg ha, if_neg]
+      intro h; have h0 := h 0 (by simp); simp only [Nat.add_zero, List.getElem_cons_zero] at h0; exact ha h0
+theorem place_length (acc : Nat → Nat → Bool) (n : Nat) :
+    ∀ (ds : List Nat) (i : Nat) (out o : List Nat), place acc n i ds out = some o →
+      o.length = out.length := by
+  intro ds
+  induction ds with
+  | nil => intro i out o h; simp [place] at h; subst h; rfl
+  | cons d ds ih =>
+    intro i out o h
+    simp only [place] at h
+    by_cases ha : acc i d
+    · simp only [ha, if_true] at h
+      have := ih _ _ _ h
+      rw [this]; split <;> simp
+    · simp [ha] at h
+
+/-- `k` consecutive `bw`-byte chunks -/
+def chunks (bw : Nat) : Nat → List Nat → List (List Nat)
+  | 0, _ => []
+  | k + 1, bs => bs.take bw :: chunks bw k (bs.drop bw)
+
+theorem chunks_length (bw : Nat) : ∀ (k : Nat) (bs : List Nat), (chunks bw k bs).length = k := by
+  intro k; induction k with
+  | zero => intro bs; rfl
+  | succ k ih => intro bs; simp [chunks, ih]
+
+theorem chunks_getElem (bw : Nat) : ∀ (k : Nat) (bs : List Nat) (t : Nat) (h : t < (chunks bw k bs).length),
+    (chunks bw k bs)[t] = (bs.drop (t * bw)).take bw := by
+  intro k; induction k with
+  | zero => intro bs t h; simp [chunks] at h
+  | succ k ih =>
+    intro bs t h
+    cases t with
+    | zero => simp [chunks]
+    | succ t =>
+      simp only [chunks, List.getElem_cons_succ]
+      rw [ih]; simp [Nat.add_mul, Nat.add_comm]
+
+/-- the digits denoted by a little-endian byte string; the partial top digit is padded with `pad` -/
+def digitsLE (bw pad : Nat) (bs : List Nat) : List Nat :=
+  (chunks bw (bs.length / bw) bs).map (U 8) ++
+    (if bs.length % bw = 0 then []
+     else [U 8 (bs.drop (bs.length / bw * bw) ++ List.replicate (bw - bs.length % bw) pad)])
+
+theorem place_single (acc : Nat → Nat → Bool) (n i d : Nat) (out : List Nat) :
+    place acc n i [d] out = if acc i d then some (if i < n then out.set i d else out) else none := by
+  simp [place]
+
+/-- common tail of the four slice constructors, in pure form -/
+theorem slice_tail (acc : Nat → Nat → Bool) (n : Nat) (ds : List Nat) (out : List Nat)
+    (last : List Nat) :
+    place acc n 0 (ds ++ last) out = (place acc n 0 ds out).bind (fun o => place acc n ds.length last o) := by
+  rw [place_append]; simp
+
+
+theorem take_drop_reverse (bs : List Nat) (a b : Nat) (h : a + b ≤ bs.length) :
+    (bs.reverse.drop a).take b = ((bs.drop (bs.length - b - a)).take b).reverse := by
+  rw [List.drop_reverse, List.take_reverse, List.length_take, Nat.min_eq_left (by omega),
+    List.drop_take, show bs.length - a - (bs.length - a - b) = b by omega,
+    show bs.length - a - b = bs.length - b - a by omega]
+
+section common
+variable {bw sh : Nat} (hbw : bw = 2 ^ sh) (n : Nat)
+  (setDigit : Nat → Nat → List Nat → Outcome (Option (List Nat))) (acc : Nat → Nat → Bool)
+  (hset : ∀ i d (out : List Nat), out.length = n →
+      setDigit i d out = .ok (if acc i d then some (if i < n then out.set i d else out) else none))
+include hbw hset
+
+theorem leSlice_common (bs out : List Nat) (pad : Nat) (hout : out.length = n) :
+    (match sliceLoop (leDigit bw bs) setDigit (bs.length / bw) 0 out with
+      | .panic => .panic
+      | .ok none => .ok none
+      | .ok (some out) =>
+        if (bs.length % bw == 0) = true then .ok (some out)
+        else
+          match leLastDigit bw bs (bs.length / bw) pad with
+          | .panic => .panic
+          | .ok digit => setDigit (bs.length / bw) digit out : Outcome (Option (List Nat)))
+      = .ok (place acc n 0 (digitsLE bw pad bs) out) := by
+  have hpos : 0 < bw := by subst hbw; exact Nat.pow_pos (by decide)
+  unfold digitsLE
+  have hdm := Nat.div_add_mod bs.length bw
+  have hml := Nat.mod_lt bs.length hpos
+  have hmul : bs.length / bw * bw = bw * (bs.length / bw) := Nat.mul_comm _ _
+  have hloop := sliceLoop_eq (leDigit bw bs) setDigit acc n hset
+    ((chunks bw (bs.length / bw) bs).map (U 8)) 0 out hout (by
+      intro t h
+      simp only [List.length_map, chunks_length] at h
+      rw [Nat.zero_add, leDigit_eq hbw bs t (by
+        have : (t + 1) * bw ≤ bs.length / bw * bw := Nat.mul_le_mul_right _ h
+        omega)]
+      simp [chunks_getElem, Prim.fromLeBytes])
+  simp only [List.length_map, chunks_length] at hloop
+  rw [hloop, slice_tail]
+  cases hr : place acc n 0 ((chunks bw (bs.length / bw) bs).map (U 8)) out with
+  | none => simp
+  | some o =>
+    have hol := place_length _ _ _ _ _ _ hr
+    rw [hout] at hol
+    by_cases hrem : bs.length % bw = 0
+    · simp [hrem, place]
+    · simp only [hrem, beq_iff_eq, if_false, Option.bind_some, List.length_map, chunks_length,
+        place_single]
+      rw [leLastDigit_eq hbw bs _ pad (by omega) (by omega)]
+      simp only [hset _ _ _ hol, Prim.fromLeBytes]
+      rw [show bs.length - bs.length / bw * bw = bs.length % bw by omega]
+
+theorem beSlice_common (bs out : List Nat) (pad : Nat) (hout : out.length = n) :
+    (match sliceLoop (beDigit bw bs bs.length) setDigit (bs.length / bw) 0 out with
+      | .panic => .panic
+      | .ok none => .ok none
+      | .ok (some out) =>
+        if (bs.length % bw == 0) = true then .ok (some out)
+        else
+          match beLastDigit bw bs (bs.length % bw) pad with
+          | .panic => .panic
+          | .ok digit => setDigit (bs.length / bw) digit out : Outcome (Option (List Nat)))
+      = .ok (place acc n 0 (digitsLE bw pad bs.reverse) out) := by
+  have hpos : 0 < bw := by subst hbw; exact Nat.pow_pos (by decide)
+  unfold digitsLE
+  simp only [List.length_reverse]
+  have hdm := Nat.div_add_mod bs.length bw
+  have hml := Nat.mod_lt bs.length hpos
+  have hmul : bs.length / bw * bw = bw * (bs.length / bw) := Nat.mul_comm _ _
+  have hloop := sliceLoop_eq (beDigit bw bs bs.length) setDigit acc n hset
+    ((chunks bw (bs.length / bw) bs.reverse).map (U 8)) 0 out hout (by
+      intro t h
+      simp only [List.length_map, chunks_length] at h
+      have : (t + 1) * bw ≤ bs.length / bw * bw := Nat.mul_le_mul_right _ h
+      rw [Nat.add_mul] at this
+      rw [Nat.zero_add, beDigit_eq hbw bs t (by rw [Nat.add_mul]; omega)]
+      simp only [List.getElem_map, chunks_getElem, Prim.fromBeBytes]
+      rw [take_drop_reverse bs _ _ (by omega)])
+  simp only [List.length_map, chunks_length] at hloop
+  rw [hloop, slice_tail]
+  cases hr : place acc n 0 ((chunks bw (bs.length / bw) bs.reverse).map (U 8)) out with
+  | none => simp
+  | some o =>
+    have hol := place_length _ _ _ _ _ _ hr
+    rw [hout] at hol
+    by_cases hrem : bs.length % bw = 0
+    · simp [hrem, place]
+    · simp only [hrem, beq_iff_eq, if_false, Option.bind_some, List.length_map, chunks_length,
+        place_single]
+      rw [beLastDigit_eq bw bs _ pad (by omega) (by omega)]
+      simp only [hset _ _ _ hol, Prim.fromBeBytes]
+      rw [List.reverse_append, List.reverse_replicate, List.drop_reverse,
+        show bs.length - bs.length / bw * bw = bs.length % bw by omega]
+end common
+end Endian
+
+open Endian
+theorem UI.fromLeSlice_eq {bw sh : Nat} (hbw : bw = 2 ^ sh) (n : Nat) (bs : List Nat) :
+    UI.fromLeSlice bw n bs
+      = .ok (place (accU n) n 0 (digitsLE bw 0 bs) (List.replicate n 0)) := by
+  unfold UI.fromLeSlice
+  simp only [shr_byteShift hbw, and_bw hbw]
+  exact leSlice_common hbw n (setDigitU n) (accU n) (fun i d out h => setDigitU_eq h) bs _ 0 (by simp)
+
+theorem UI.fromBeSlice_eq {bw sh : Nat} (hbw : bw = 2 ^ sh) (n : Nat) (bs : List Nat) :
+    UI.fromBeSlice bw n bs
+      = .ok (place (accU n) n 0 (digitsLE bw 0 bs.reverse) (List.replicate n 0)) := by
+  unfold UI.fromBeSlice
+  simp only [shr_byteShift hbw, and_bw hbw]
+  exact beSlice_common hbw n (setDigitU n) (accU n) (fun i d out h => setDigitU_eq h) bs _ 0 (by simp)
+
+theorem UI.fromBeSlice_eq_fromLeSlice {bw sh : Nat} (hbw : bw = 2 ^ sh) (n : Nat) (bs : List Nat) :
+    UI.fromBeSlice bw n bs = UI.fromLeSlice bw n bs.reverse := by
+  rw [UI.fromBeSlice_eq hbw, UI.fromLeSlice_eq hbw]
+/-- sign digit (`Digit::MAX` / `Digit::MIN`) chosen by the slice constructors -/
+def Endian.signBits (w : Nat) (neg : Bool) : Nat := if neg then B w - 1 else 0
+/-- pad byte (`u8::MAX` / `0`) -/
+def Endian.padByte (neg : Bool) : Nat := if neg then 255 else 0
+
+theorem II.fromLeSlice_nil (bw n : Nat) : II.fromLeSlice bw n [] = .ok (some (List.replicate n 0)) := by
+  simp [II.fromLeSlice]
+
+theorem II.fromBeSlice_nil (bw n : Nat) : II.fromBeSlice bw n [] = .ok (some (List.replicate n 0)) := by
+  simp [II.fromBeSlice]
+
+theorem II.fromLeSlice_eq {bw sh : Nat} (hbw : bw = 2 ^ sh) {n : Nat} (hn : 1 ≤ n) (bs : List Nat)
+    (hne : bs ≠ []) :
+    II.fromLeSlice bw n bs
+      = .ok (place (accI (8 * bw) n (Prim.byteIsNeg (bs.getLast hne))
+                (signBits (8 * bw) (Prim.byteIsNeg (bs.getLast hne)))) n 0
+              (digitsLE bw (padByte (Prim.byteIsNeg (bs.getLast hne))) bs)
+              (List.replicate n (signBits (8 * bw) (Prim.byteIsNeg (bs.getLast hne))))) := by
+  have hlen : 0 < bs.length := List.length_pos_iff.mpr hne
+  unfold II.fromLeSlice
+  simp only [shr_byteShift hbw, and_bw hbw]
+  rw [if_neg (by simp; omega), usub_eq (by omega)]
+  simp only
+  rw [idx_eq (by omega)]
+  simp only
+  have hl : bs[bs.length - 1] = bs.getLast hne := by rw [List.getLast_eq_getElem]
+  rw [hl]
+  exact leSlice_common hbw n _ _ (fun i d out h => setDigitI_eq hn h) bs _ _ (by simp)
+
+theorem II.fromBeSlice_eq {bw sh : Nat} (hbw : bw = 2 ^ sh) {n : Nat} (hn : 1 ≤ n) (bs : List Nat)
+    (hne : bs ≠ []) :
+    II.fromBeSlice bw n bs
+      = .ok (place (accI (8 * bw) n (Prim.byteIsNeg (bs.head hne))
+                (signBits (8 * bw) (Prim.byteIsNeg (bs.head hne)))) n 0
+              (digitsLE bw (padByte (Prim.byteIsNeg (bs.head hne))) bs.reverse)
+              (List.replicate n (signBits (8 * bw) (Prim.byteIsNeg (bs.head hne))))) := by
+  have hlen : 0 < bs.length := List.length_pos_iff.mpr hne
+  unfold II.fromBeSlice
+  simp only [shr_byteShift hbw, and_bw hbw]
+  rw [if_neg (by simp; omega), idx_eq (by omega)]
+  simp only
+  have hl : bs[0] = bs.head hne := by rw [List.head_eq_getElem]
+  rw [hl]
+  have hout : (if Prim.byteIsNeg (bs.head hne) = true then List.replicate n (B (8 * bw) - 1)
+      else List.replicate n 0) = List.replicate n (signBits (8 * bw) (Prim.byteIsNeg (bs.head hne))) := by
+    unfold signBits; split <;> rfl
+  rw [hout]
+  exact beSlice_common hbw n _ _ (fun i d out h => setDigitI_eq hn h) bs _ _ (by simp)
+
+theorem II.fromBeSlice_eq_fromLeSlice {bw sh : Nat} (hbw : bw = 2 ^ sh) {n : Nat} (hn : 1 ≤ n)
+    (bs : List Nat) : II.fromBeSlice bw n bs = II.fromLeSlice bw n bs.reverse := by
+  by_cases hne : bs = []
+  · subst hne; simp [II.fromBeSlice_nil, II.fromLeSlice_nil]
+  · rw [II.fromBeSlice_eq hbw hn bs hne, II.fromLeSlice_eq hbw hn bs.reverse (by simpa using hne)]
+    simp [List.getLast_reverse]
+namespace Endian
+theorem U_eq_zero_iff (w : Nat) (x : List Nat) : U w x = 0 ↔ ∀ d ∈ x, d = 0 := by
+  induction x with
+  | nil => simp
+  | cons d ds ih =>
+    have hB := B_pos w
+    simp only [U_cons, List.mem_cons, forall_eq_or_imp, ← ih]
+    constructor
+    · intro h
+      have h1 : d = 0 := by omega
+      have h2 : B w * U w ds = 0 := by omega
+      exact ⟨h1, by rcases Nat.mul_eq_zero.mp h2 with h | h <;> omega⟩
+    · rintro ⟨h1, h2⟩; simp [h1, h2]
+
+theorem U_replicate_max (w k : Nat) : U w (List.replicate k (B w - 1)) + 1 = M w k := by
+  induction k with
+  | zero => simp [M]
+  | succ k ih =>
+    rw [List.replicate_succ, U_cons, M_succ, ← ih]
+    have hB := B_pos w
+    generalize U w (List.replicate k (B w - 1)) = u
+    generalize B w = b at *
+    have : b * (u + 1) = b * u + b := by ring
+    omega
+
+theorem WF_replicate {w k d : Nat} (hd : d < B w) : WF w k (List.replicate k d) := by
+  refine ⟨by simp, ?_⟩
+  intro e he; rw [List.mem_replicate] at he; omega
+
+theorem WF_append {w n k : Nat} {x y : List Nat} (hx : WF w n x) (hy : WF w k y) :
+    WF w (n + k) (x ++ y) := by
+  refine ⟨by simp [hx.1, hy.1], ?_⟩
+  intro d hd; rw [List.mem_append] at hd
+  rcases hd with h | h
+  · exact hx.2 d h
+  · exact hy.2 d h
+
+theorem M_add (w n k : Nat) : M w (n + k) = M w n * M w k := by
+  unfold M; rw [Nat.mul_add, Nat.pow_add]
+
+theorem M_le {w n k : Nat} (h : n ≤ k) : M w n ≤ M w k := by
+  unfold M; exact Nat.pow_le_pow_right (by decide) (Nat.mul_le_mul_left _ h)
+
+theorem S_neg_iff {w n : Nat} {x : List Nat} (hx : WF w n x) :
+    S w x < 0 ↔ M w n ≤ 2 * U w x := by
+  have := U_lt hx
+  unfold S toInt; rw [hx.1]; split <;> omega
+
+theorem S_eq_of_nonneg {w n : Nat} {x : List Nat} (hx : WF w n x) (h : ¬ S w x < 0) :
+    S w x = U w x := by
+  have h' := (S_neg_iff hx).not.mp h
+  unfold S; rw [hx.1]; exact toInt_of_lt (by omega)
+
+theorem S_eq_of_neg {w n : Nat} {x : List Nat} (hx : WF w n x) (h : S w x < 0) :
+    S w x = (U w x : Int) - M w n := by
+  have h' := (S_neg_iff hx).mp h
+  unfold S; rw [hx.1]; exact toInt_of_ge h'
+
+/-- the sign is the top bit of the most significant digit -/
+theorem S_neg_top {w : Nat} (hw : 1 ≤ w) : ∀ {n : Nat} {x : List Nat}, 1 ≤ n → WF w n x →
+    (S w x < 0 ↔ B w ≤ 2 * x.getLastD 0) := by
+  intro n x
+  induction x generalizing n with
+  | nil => intro hn hx; have := hx.1; simp at this; omega
+  | cons d ds ih =>
+    intro hn hx
+    cases n with
+    | zero => omega
+    | succ n =>
+      rw [WF_cons] at hx
+      cases ds with
+      | nil =>
+        rw [S_singleton]
+        have := hx.1
+        simp only [List.getLastD_cons, List.getLastD_nil]
+        unfold toInt; split <;> omega
+      | cons e es =>
+        have hn' : 1 ≤ n := by have := hx.2.1; simp at this; omega
+        rw [S_cons hw hn' hx.1 hx.2]
+        have := ih hn' hx.2
+        simp only [List.getLastD_cons] at this ⊢
+        rw [← this]
+        have hB := B_pos w
+        have hd := hx.1
+        generalize S w (e :: es) = s
+        generalize B w = b at *
+        constructor
+        · intro h
+          by_contra hs
+          have : (0 : Int) ≤ b * s := Int.mul_nonneg (by omega) (by omega)
+          omega
+        · intro h
+          have : (b : Int) * s ≤ b * (-1) := Int.mul_le_mul_of_nonneg_left (by omega) (by omega)
+          omega
+
+/-- sign extension does not change the value -/
+theorem S_sign_extend {w n : Nat} {x : List Nat} (hw : 1 ≤ w) (hn : 1 ≤ n) (hx : WF w n x) (k : Nat) :
+    S w (x ++ List.replicate k (if S w x < 0 then B w - 1 else 0)) = S w x := by
+  have hB := B_pos w
+  have hxu := U_lt hx
+  have hsb : (if S w x < 0 then B w - 1 else 0) < B w := by split <;> omega
+  have hwf := WF_append hx (WF_replicate (k := k) hsb)
+  have hrep := S_repS hw hn hx
+  have hMk := M_pos w k
+  have hMn := M_pos w n
+  unfold S at *
+  rw [hwf.1, hx.1] at *
+  apply toInt_eq_of_emod (M_pos _ _) (U_lt hwf)
+  · unfold repS at *
+    rw [M_add]; push_cast
+    have : (M w n : Int) ≤ M w n * M w k := by
+      have : (M w n : Int) * 1 ≤ M w n * M w k := Int.mul_le_mul_of_nonneg_left (by omega) (by omega)
+      omega
+    omega
+  · rw [U_append, hx.1, ← M_eq_pow, M_add]
+    by_cases hneg : toInt (M w n) (U w x) < 0
+    · simp only [hneg, if_true]
+      have hum := U_replicate_max w k
+      have h2 : toInt (M w n) (U w x) = (U w x : Int) - M w n := by
+        unfold toInt at hneg ⊢; split at hneg <;> simp_all <;> omega
+      rw [h2]
+      generalize U w (List.replicate k (B w - 1)) = r at *
+      rw [← hum]; push_cast
+      have : ((U w x : Int) - M w n) = (U w x + M w n * r) + (M w n * (r + 1)) * (-1) := by ring
+      rw [this, Int.add_mul_emod_self_left]
+      apply Int.emod_eq_of_lt (by positivity)
+      have : (M w n : Int) * r + M w n = M w n * (r + 1) := by ring
+      omega
+    · simp only [hneg, if_false, U_replicate_zero]
+      have h2 : toInt (M w n) (U w x) = (U w x : Int) := by
+        unfold toInt at hneg ⊢; split at hneg <;> simp_all
+      rw [h2]; simp only [Nat.mul_zero, Nat.add_zero]
+      apply Int.emod_eq_of_lt (by positivity)
+      have : (M w n : Int) * 1 ≤ M w n * M w k := Int.mul_le_mul_of_nonneg_left (by omega) (by omega)
+      push_cast; omega
+theorem WF_of_forall {w : Nat} {D : List Nat} (h : ∀ d ∈ D, d < B w) : WF w D.length D := ⟨rfl, h⟩
+
+theorem WF_take {w n : Nat} {D : List Nat} (h : ∀ d ∈ D, d < B w) (hn : n ≤ D.length) :
+    WF w n (D.take n) :=
+  ⟨by simp [hn], fun d hd => h d (List.mem_of_mem_take hd)⟩
+
+theorem WF_drop {w n : Nat} {D : List Nat} (h : ∀ d ∈ D, d < B w) :
+    WF w (D.length - n) (D.drop n) :=
+  ⟨by simp, fun d hd => h d (List.mem_of_mem_drop hd)⟩
+
+theorem WF_takePad {w n sb : Nat} {D : List Nat} (h : ∀ d ∈ D, d < B w) (hsb : sb < B w) :
+    WF w n (D.take n ++ List.replicate (n - D.length) sb) := by
+  refine ⟨by simp; omega, ?_⟩
+  intro d hd; rw [List.mem_append] at hd
+  rcases hd with hd | hd
+  · exact h d (List.mem_of_mem_take hd)
+  · rw [List.mem_replicate] at hd; omega
+
+theorem U_split (w n : Nat) (D : List Nat) (hn : n ≤ D.length) :
+    U w D = U w (D.take n) + M w n * U w (D.drop n) := by
+  conv_lhs => rw [← List.take_append_drop n D]
+  rw [U_append, List.length_take, Nat.min_eq_left hn, M_eq_pow]
+
+/-! ### unsigned digit store -/
+theorem accU_all_iff (n : Nat) (D : List Nat) :
+    (∀ t (h : t < D.length), accU n (0 + t) D[t] = true) ↔ ∀ d ∈ D.drop n, d = 0 := by
+  constructor
+  · intro h d hd
+    obtain ⟨j, hj, rfl⟩ := List.getElem_of_mem hd
+    rw [List.length_drop] at hj
+    have := h (n + j) (by omega)
+    rw [List.getElem_drop]
+    simpa [accU] using this
+  · intro h t ht
+    by_cases hlt : t < n
+    · simp [accU, hlt]
+    · have : D[t] ∈ D.drop n := by
+        rw [List.mem_iff_getElem]
+        exact ⟨t - n, by simp; omega, by rw [List.getElem_drop]; congr 1; omega⟩
+      simp [accU, h _ this]
+
+theorem placeU_spec {w n : Nat} (D : List Nat) (hD : ∀ d ∈ D, d < B w) :
+    place (accU n) n 0 D (List.replicate n 0)
+      = if U w D < M w n then some (D.take n ++ List.replicate (n - D.length) 0) else none := by
+  rw [place_eq _ _ _ _ _ (by simp)]
+  have hiff : (∀ t (h : t < D.length), accU n (0 + t) D[t] = true) ↔ U w D < M w n := by
+    rw [accU_all_iff, ← U_eq_zero_iff w]
+    by_cases hl : D.length ≤ n
+    · rw [List.drop_of_length_le hl]
+      have := U_lt (WF_of_forall hD)
+      have := M_le (w := w) hl
+      simp; omega
+    · have hn : n ≤ D.length := by omega
+      rw [U_split w n D hn]
+      have h1 := U_lt (WF_take hD hn)
+      have hM := M_pos w n
+      generalize U w (D.drop n) = r
+      generalize U w (D.take n) = t at *
+      generalize M w n = m at *
+      constructor
+      · intro h; subst h; simpa using h1
+      · intro h
+        by_contra hr
+        have : m * 1 ≤ m * r := Nat.mul_le_mul_left _ (by omega)
+        omega
+  by_cases hc : U w D < M w n
+  · rw [if_pos (hiff.mpr hc), if_pos hc]; simp [List.drop_replicate]
+  · rw [if_neg (fun h => hc (hiff.mp h)), if_neg hc]
+
+theorem U_takePad {w n : Nat} (D : List Nat) (h : U w D < M w n) :
+    U w (D.take n ++ List.replicate (n - D.length) 0) = U w D := by
+  rw [U_append, U_replicate_zero, Nat.mul_zero, Nat.add_zero]
+  by_cases hl : D.length ≤ n
+  · rw [List.take_of_length_le hl]
+  · have hn : n ≤ D.length := by omega
+    rw [U_split w n D hn] at h ⊢
+    have hM := M_pos w n
+    generalize U w (D.drop n) = r at *
+    generalize U w (D.take n) = t at *
+    generalize M w n = m at *
+    have : r = 0 := by
+      by_contra hr
+      have : m * 1 ≤ m * r := Nat.mul_le_mul_left _ (by omega)
+      omega
+    subst this; simp
+theorem signBits_lt (w : Nat) (neg : Bool) : signBits w neg < B w := by
+  have := B_pos w; unfold signBits; split <;> omega
+
+theorem signBits_decide (w : Nat) (p : Prop) [Decidable p] :
+    signBits w (decide p) = if p then B w - 1 else 0 := by
+  unfold signBits; by_cases h : p <;> simp [h]
+
+/-- truncating a two's-complement digit string whose value fits `n` digits -/
+theorem S_truncate {w n : Nat} (hw : 1 ≤ w) (hn : 1 ≤ n) {D : List Nat} (hD : ∀ d ∈ D, d < B w)
+    (hL : n ≤ D.length) (hrep : repS (M w n) (S w D)) :
+    S w (D.take n) = S w D ∧
+      D = D.take n ++ List.replicate (D.length - n) (signBits w (decide (S w D < 0))) := by
+  have hX := WF_take hD hL
+  have hDwf := WF_of_forall hD
+  have hMn := M_pos w n
+  have hSX : S w (D.take n) = S w D := by
+    unfold S; rw [hX.1]
+    apply toInt_eq_of_emod hMn (U_lt hX) hrep
+    have h1 := S_emod hDwf
+    have hdvd : (M w n : Int) ∣ (M w D.length : Int) := by
+      rw [show D.length = n + (D.length - n) by omega, M_add]; push_cast
+      exact Int.dvd_mul_right _ _
+    have h2 : S w D % (M w n : Int) = (S w D % (M w D.length : Int)) % (M w n : Int) :=
+      (Int.emod_emod_of_dvd _ hdvd).symm
+    rw [h2, h1, U_split w n D hL]
+    push_cast
+    rw [Int.add_mul_emod_self_left]
+    exact Int.emod_eq_of_lt (by positivity) (by have := U_lt hX; omega)
+  refine ⟨hSX, ?_⟩
+  have hext := S_sign_extend hw hn hX (D.length - n)
+  rw [hSX] at hext
+  rw [signBits_decide]
+  have hsb : (if S w D < 0 then B w - 1 else 0) < B w := by have := B_pos w; split <;> omega
+  have hY : WF w D.length (D.take n ++ List.replicate (D.length - n) (if S w D < 0 then B w - 1 else 0)) := by
+    have := WF_append hX (WF_replicate (k := D.length - n) hsb)
+    rwa [show n + (D.length - n) = D.length by omega] at this
+  apply U_injective hDwf hY
+  have e1 := S_emod hDwf
+  have e2 := S_emod hY
+  rw [hext, e1] at e2
+  exact_mod_cast e2
+
+theorem accI_all_iff {w n : Nat} (hn : 1 ≤ n) (neg : Bool) (sb : Nat) (D : List Nat)
+    (hL : n ≤ D.length) :
+    (∀ t (h : t < D.length), accI w n neg sb (0 + t) D[t] = true) ↔
+      (decide (B w ≤ 2 * (D.take n).getLastD 0) = neg ∧ ∀ d ∈ D.drop n, d = sb) := by
+  have hlast : (D.take n).getLastD 0 = D[n - 1]'(by omega) := by
+    have hne : D.take n ≠ [] := by
+      intro h; have := congrArg List.length h; rw [List.length_take, List.length_nil] at this; omega
+    rw [List.getLastD_eq_getLast?, List.getLast?_eq_some_getLast hne, Option.getD_some,
+      List.getLast_eq_getElem]
+    simp [Nat.min_eq_left hL]
+  constructor
+  · intro h
+    refine ⟨?_, ?_⟩
+    · have := h (n - 1) (by omega)
+      simp only [accI, Nat.zero_add, if_true, Bnum.Prim.isNeg] at this
+      rw [hlast]; simpa using this
+    · intro d hd
+      obtain ⟨j, hj, rfl⟩ := List.getElem_of_mem hd
+      rw [List.length_drop] at hj
+      have := h (n + j) (by omega)
+      rw [List.getElem_drop]
+      have h1 : ¬ (n + j = n - 1) := by omega
+      have h2 : ¬ (n + j < n) := by omega
+      simpa [accI, h1, h2] using this
+  · rintro ⟨h1, h2⟩ t ht
+    rw [Nat.zero_add]
+    unfold accI
+    by_cases ht1 : t = n - 1
+    · subst ht1; rw [hlast] at h1; simp [Bnum.Prim.isNeg, h1]
+    · by_cases hlt : t < n
+      · simp [ht1, hlt]
+      · have : D[t] ∈ D.drop n := by
+          rw [List.mem_iff_getElem]
+          exact ⟨t - n, by simp; omega, by rw [List.getElem_drop]; congr 1; omega⟩
+        simp [ht1, h2 _ this]
+
+theorem placeI_spec {w n : Nat} (hw : 1 ≤ w) (hn : 1 ≤ n) (D : List Nat) (hne : D ≠ [])
+    (hD : ∀ d ∈ D, d < B w) :
+    place (accI w n (decide (S w D < 0)) (signBits w (decide (S w D < 0)))) n 0 D
+        (List.replicate n (signBits w (decide (S w D < 0))))
+      = if repS (M w n) (S w D)
+        then some (D.take n ++ List.replicate (n - D.length) (signBits w (decide (S w D < 0))))
+        else none := by
+  have hLpos : 1 ≤ D.length := List.length_pos_iff.mpr hne
+  have hDwf := WF_of_forall hD
+  rw [place_eq _ _ _ _ _ (by simp)]
+  have hiff : (∀ t (h : t < D.length), accI w n (decide (S w D < 0))
+      (signBits w (decide (S w D < 0))) (0 + t) D[t] = true) ↔ repS (M w n) (S w D) := by
+    by_cases hl : D.length ≤ n
+    · have hrep : repS (M w n) (S w D) := by
+        have h1 := S_repS hw hLpos hDwf
+        have h2 := M_le (w := w) hl
+        unfold repS at *; omega
+      refine ⟨fun _ => hrep, fun _ t ht => ?_⟩
+      rw [Nat.zero_add]; unfold accI
+      by_cases ht1 : t = n - 1
+      · have hlen : D.length = n := by omega
+        subst ht1
+        have htop : D[n - 1] = D.getLastD 0 := by
+          rw [List.getLastD_eq_getLast?, List.getLast?_eq_some_getLast hne, Option.getD_some,
+            List.getLast_eq_getElem]
+          congr 1; omega
+        have := S_neg_top hw hLpos hDwf
+        simp only [if_true, Bnum.Prim.isNeg, htop, beq_iff_eq]
+        exact decide_eq_decide.mpr this.symm
+      · have : t < n := by omega
+        simp [ht1, this]
+    · have hL : n ≤ D.length := by omega
+      rw [accI_all_iff hn _ _ _ hL]
+      constructor
+      · rintro ⟨h1, h2⟩
+        have hX := WF_take hD hL
+        have hsx := S_neg_top hw hn hX
+        have hsign : S w (D.take n) < 0 ↔ S w D < 0 := hsx.trans (decide_eq_decide.mp h1)
+        have hR : D.drop n = List.replicate (D.length - n) (signBits w (decide (S w D < 0))) := by
+          rw [List.eq_replicate_iff]; exact ⟨by simp, h2⟩
+        have hext := S_sign_extend hw hn hX (D.length - n)
+        have hDeq : D = D.take n ++ List.replicate (D.length - n)
+            (if S w (D.take n) < 0 then B w - 1 else 0) := by
+          conv_lhs => rw [← List.take_append_drop n D, hR, signBits_decide]
+          congr 2
+          by_cases hs : S w D < 0
+          · simp [hs, hsign.mpr hs]
+          · simp [hs, mt hsign.mp hs]
+        rw [← hDeq] at hext
+        rw [hext]; exact S_repS hw hn hX
+      · intro hrep
+        obtain ⟨hSX, hDeq⟩ := S_truncate hw hn hD hL hrep
+        have hX := WF_take hD hL
+        have hsx := S_neg_top hw hn hX
+        refine ⟨?_, ?_⟩
+        · rw [hSX] at hsx
+          exact decide_eq_decide.mpr hsx.symm
+        · intro d hd
+          have : D.drop n = List.replicate (D.length - n) (signBits w (decide (S w D < 0))) := by
+            conv_lhs => rw [hDeq]
+            rw [List.drop_append_of_le_length (by simp [hL])]
+            simp
+          rw [this, List.mem_replicate] at hd
+          exact hd.2
+  by_cases hc : repS (M w n) (S w D)
+  · rw [if_pos (hiff.mpr hc), if_pos hc]; simp [List.drop_replicate]
+  · rw [if_neg (fun h => hc (hiff.mp h)), if_neg hc]
+
+theorem S_takePad {w n : Nat} (hw : 1 ≤ w) (hn : 1 ≤ n) (D : List Nat) (hne : D ≠ [])
+    (hD : ∀ d ∈ D, d < B w) (hrep : repS (M w n) (S w D)) :
+    S w (D.take n ++ List.replicate (n - D.length) (signBits w (decide (S w D < 0)))) = S w D := by
+  have hLpos : 1 ≤ D.length := List.length_pos_iff.mpr hne
+  by_cases hl : D.length ≤ n
+  · rw [List.take_of_length_le hl, signBits_decide]
+    exact S_sign_extend hw hLpos (WF_of_forall hD) _
+  · have hL : n ≤ D.length := by omega
+    rw [show n - D.length = 0 by omega]
+    simp only [List.replicate_zero, List.append_nil]
+    exact (S_truncate hw hn hD hL hrep).1
 end Endian
 end Bnum
